@@ -26,6 +26,8 @@ impl GenerationPass for LivenessPass {
 
         #[cfg(rva_verif)]
         crate::verif_hooks::begin("liveness");
+        #[cfg(rva_verif)]
+        crate::verif_hooks::pass_begin("liveness", cfg);
         while changed {
             changed = false;
             #[cfg(rva_verif)]
@@ -144,8 +146,12 @@ impl GenerationPass for LivenessPass {
                     changed |= node.set_live_in(live_in);
                     changed |= node.set_u_def(u_def);
                 }
+                #[cfg(rva_verif)]
+                crate::verif_hooks::visit("liveness", &node, false, changed);
                 visited.insert(node);
             }
+            #[cfg(rva_verif)]
+            crate::verif_hooks::sweep_end("liveness", None, changed);
         }
         Ok(())
     }
